@@ -351,10 +351,12 @@ class TupleWire:
             return f'(discard {1 if e[1] else 0} {x(e[2])} {x(e[3])})'
         if k == 'alt':
             # `a | b | c` is flattened by the translator
-            flat = []
-            for c in e[1]:
-                flat += list(c[1]) if c[0] == 'alt' else [c]
-            return '(choice' + ''.join(' ' + x(c) for c in flat) + ')'
+            def flatten(alt):
+                out = []
+                for c in alt[1]:
+                    out += flatten(c) if c[0] == 'alt' else [c]
+                return out
+            return '(choice' + ''.join(' ' + x(c) for c in flatten(e)) + ')'
         if k == 'opt':
             return f'(opt {x(e[1])})'
         if k == 'rep':
